@@ -26,7 +26,15 @@ type kv struct {
 	v string
 }
 
+// cmpFor: min/max are the normalised comparators (-1/0/1); mind and maxd7 return non-normalised values
+// (a-b and 7*(b-a)), which a CompareFunc is allowed to do and which the code must only use by sign.
 func cmpFor(ord string) generic.CompareFunc[int] {
+	switch ord {
+	case "mind":
+		return func(a, b int) int { return a - b }
+	case "maxd7":
+		return func(a, b int) int { return 7 * (b - a) }
+	}
 	if ord == "max" {
 		return func(a, b int) int {
 			switch {
@@ -487,6 +495,62 @@ func exhaustive(alpha []string, n int, f func([]string)) {
 
 var Comps = []string{"ibinary", "ibinomial", "ifibonacci"}
 
+var Ords = []string{"min", "max", "mind", "maxd7"}
+
+// fullStorm: fill every slot of a heap of capacity cap (so the linked heaps hold trees of order >= 3), then
+// rounds of many ChangeKey calls in both directions with large jumps (an entry must sink / rise several
+// levels), each round followed by a complete drain with Delete (every entry's extremality is checked) and a
+// refill.  Dumps after the fill, after every few ChangeKeys and during the drain.
+func fullStorm(r *hx.Rand, cap int) []string {
+	var ops []string
+	fill := func() {
+		perm := make([]int, cap)
+		for i := range perm {
+			perm[i] = i
+		}
+		for i := cap - 1; i > 0; i-- {
+			j := r.Intn(i + 1)
+			perm[i], perm[j] = perm[j], perm[i]
+		}
+		for _, i := range perm {
+			ops = append(ops, fmt.Sprintf("insert %d %d %s", i, 10*r.Range(1, 9), hx.Pick(r, letters)))
+		}
+		ops = append(ops, "dump")
+	}
+	rounds := r.Range(2, 3)
+	for k := 0; k < rounds; k++ {
+		fill()
+		if r.Bool() {
+			// one Delete first: consolidates the Fibonacci root list into trees
+			i := r.Intn(cap)
+			ops = append(ops, "delete", "dump", fmt.Sprintf("insert %d %d %s", i, 10*r.Range(1, 9), hx.Pick(r, letters)),
+				fmt.Sprintf("deleteindex %d", i), fmt.Sprintf("insert %d %d %s", i, 10*r.Range(1, 9), hx.Pick(r, letters)), "delete",
+				fmt.Sprintf("insert %d %d %s", r.Intn(cap), 10*r.Range(1, 9), hx.Pick(r, letters)))
+		}
+		m := r.Range(cap/2, 2*cap)
+		for j := 0; j < m; j++ {
+			key := hx.Pick(r, []int{-50, -5, 5, 15, 25, 35, 45, 55, 65, 75, 85, 95, 150})
+			ops = append(ops, fmt.Sprintf("changekey %d %d", r.Intn(cap), key))
+			if r.Chance(1, 3) {
+				ops = append(ops, "dump", "peek")
+			}
+			if r.Chance(1, 8) {
+				i := r.Intn(cap)
+				ops = append(ops, fmt.Sprintf("deleteindex %d", i), fmt.Sprintf("insert %d %d %s", i, 10*r.Range(1, 9), hx.Pick(r, letters)))
+			}
+		}
+		ops = append(ops, "dump")
+		for j := 0; j <= cap; j++ {
+			ops = append(ops, "delete")
+			if j%4 == 1 {
+				ops = append(ops, "dump")
+			}
+		}
+		ops = append(ops, "size", "isempty")
+	}
+	return ops
+}
+
 func Main(run *hx.Run) {
 	run.Stats.Rule = Rule
 	for _, f := range hx.CorpusFiles("C05") {
@@ -548,18 +612,24 @@ func Main(run *hx.Run) {
 			if cap > 12 {
 				g.n = r.Range(60, 400)
 			}
-			ord := hx.Pick(r, []string{"min", "max"})
+			ord := hx.Pick(r, Ords)
 			ops := genOps(r, g)
 			if r.Chance(1, 3) {
 				ops = append(ops, drain(cap)...)
 			}
 			run.Do(comp, hx.Case{Header: fmt.Sprintf("comp=%s cap=%d ord=%s", comp, cap, ord), Ops: ops}, Exec)
 		}
+		// full heaps of capacity 8..16 under a storm of ChangeKey in both directions, then drained
+		for k := 0; k < run.Scale(120); k++ {
+			cap := r.Range(8, 16)
+			ord := hx.Pick(r, Ords)
+			run.Do(comp, hx.Case{Header: fmt.Sprintf("comp=%s cap=%d ord=%s", comp, cap, ord), Ops: fullStorm(r, cap)}, Exec)
+		}
 		// adversarial families: fill completely in ascending / descending / zig-zag key order, then a storm of
 		// ChangeKey and DeleteIndex on every position, then drain
 		for _, cap := range []int{1, 2, 3, 4, 5, 7, 8, 9, 12} {
 			for fam := 0; fam < 3; fam++ {
-				for _, ord := range []string{"min", "max"} {
+				for _, ord := range Ords {
 					var ops []string
 					for i := 0; i < cap; i++ {
 						k := i
